@@ -14,7 +14,8 @@
    - exec_command for the commands of the public API, reduced to what C14 observes: who holds
      which event channel (service_queriers, hostname_resolvers, monitors), which services are
      registered (my_services, keyed by the lower-cased full name), the replies;
-   - Zeroconf::cleanup: a goodbye for every registered service, SearchStopped on every browse
+   - Zeroconf::cleanup: a goodbye for every registered service whose status is Announced
+     (bd59ecc; the status is an environment input, see `mark`), SearchStopped on every browse
      and hostname-resolution channel, retransmissions cleared (so no sender survives).
 
    Granularity: whole loop iterations.  A step of a history = the calls issued (from any
@@ -156,9 +157,11 @@ Record dstate : Type := mkD {
   d_services : list bytes;             (* my_services keys: lower-cased full names *)
   d_monitors : list N;
   d_len_max : N;
-  d_found : list (bytes * N) }.        (* cache: type -> number of instances known *)
+  d_found : list (bytes * N);          (* cache: type -> number of instances known *)
+  d_announced : list bytes;            (* services whose status is Announced (lower-cased names) *)
+  d_oracle : list bytes }.             (* environment input of the current iteration, see `mark` *)
 
-Definition d_init : dstate := mkD [] [] [] [] service_name_len_max_default [].
+Definition d_init : dstate := mkD [] [] [] [] service_name_len_max_default [] [] [].
 
 Fixpoint alookup (k : bytes) (l : list (bytes * N)) : option N :=
   match l with
@@ -178,17 +181,29 @@ Definition closed_old (old : option N) : list out :=
   match old with Some o => [(o, EClosed)] | None => [] end.
 
 Definition set_queriers (d : dstate) (v : list (bytes * N)) : dstate :=
-  mkD v (d_resolvers d) (d_services d) (d_monitors d) (d_len_max d) (d_found d).
+  mkD v (d_resolvers d) (d_services d) (d_monitors d) (d_len_max d) (d_found d) (d_announced d) (d_oracle d).
 Definition set_resolvers (d : dstate) (v : list (bytes * N)) : dstate :=
-  mkD (d_queriers d) v (d_services d) (d_monitors d) (d_len_max d) (d_found d).
+  mkD (d_queriers d) v (d_services d) (d_monitors d) (d_len_max d) (d_found d) (d_announced d) (d_oracle d).
 Definition set_services (d : dstate) (v : list bytes) : dstate :=
-  mkD (d_queriers d) (d_resolvers d) v (d_monitors d) (d_len_max d) (d_found d).
+  mkD (d_queriers d) (d_resolvers d) v (d_monitors d) (d_len_max d) (d_found d) (d_announced d) (d_oracle d).
 Definition set_monitors (d : dstate) (v : list N) : dstate :=
-  mkD (d_queriers d) (d_resolvers d) (d_services d) v (d_len_max d) (d_found d).
+  mkD (d_queriers d) (d_resolvers d) (d_services d) v (d_len_max d) (d_found d) (d_announced d) (d_oracle d).
 Definition set_len_max (d : dstate) (v : N) : dstate :=
-  mkD (d_queriers d) (d_resolvers d) (d_services d) (d_monitors d) v (d_found d).
+  mkD (d_queriers d) (d_resolvers d) (d_services d) (d_monitors d) v (d_found d) (d_announced d) (d_oracle d).
 Definition set_found (d : dstate) (v : list (bytes * N)) : dstate :=
-  mkD (d_queriers d) (d_resolvers d) (d_services d) (d_monitors d) (d_len_max d) v.
+  mkD (d_queriers d) (d_resolvers d) (d_services d) (d_monitors d) (d_len_max d) v (d_announced d) (d_oracle d).
+Definition set_announced (d : dstate) (v : list bytes) : dstate :=
+  mkD (d_queriers d) (d_resolvers d) (d_services d) (d_monitors d) (d_len_max d) (d_found d) v (d_oracle d).
+
+(* Whether a registered service has reached the status Announced (probing finished, or its
+   names were already held) is decided by the registry and the timers, which this model does
+   not contain.  It is an environment input: `ann` = the services announced during the
+   iteration that is about to run (observed on the wire).  A service registered earlier is
+   marked now; a service registered by a command of this iteration is marked when that
+   command executes (exec, QRegister). *)
+Definition mark (d : dstate) (ann : list bytes) : dstate :=
+  mkD (d_queriers d) (d_resolvers d) (d_services d) (d_monitors d) (d_len_max d) (d_found d)
+      (filter (fun n => mem n (d_services d)) ann ++ d_announced d) ann.
 
 (* exec_command (Exit is handled by the drain loop) *)
 Definition exec (d : dstate) (c : cmd) : dstate * list out :=
@@ -218,12 +233,17 @@ Definition exec (d : dstate) (c : cmd) : dstate * list out :=
     end
   | QRegister tyd full =>
     match check_service_name_length tyd (d_len_max d) with
-    | Ok _ => (set_services d (sinsert (lower full) (d_services d)), [])
+    | Ok _ =>
+      (* a fresh ServiceInfo: status not yet Announced unless announced at once *)
+      (set_announced (set_services d (sinsert (lower full) (d_services d)))
+         (if mem (lower full) (d_oracle d) then lower full :: sremove (lower full) (d_announced d)
+          else sremove (lower full) (d_announced d)), [])
     | _ => (d, [])                                  (* DaemonEvent::Error to the monitors *)
     end
   | QUnregister n ch =>
     if mem n (d_services d)
-    then (set_services d (sremove n (d_services d)), [(ch, EUnregOK); (ch, EClosed)])
+    then (set_announced (set_services d (sremove n (d_services d))) (sremove n (d_announced d)),
+          [(ch, EUnregOK); (ch, EClosed)])
     else (d, [(ch, EUnregNotFound); (ch, EClosed)])
   | QMonitor ch => (set_monitors d (d_monitors d ++ [ch]), [])
   | QStatus ch => (d, [(ch, ERunning); (ch, EClosed)])
@@ -232,10 +252,11 @@ Definition exec (d : dstate) (c : cmd) : dstate * list out :=
   | QExit _ | QOther => (d, [])
   end.
 
-(* the goodbye packet a command sends: unregistering a registered service *)
+(* the goodbye packet a command sends: unregistering a registered service that was announced
+   (bd59ecc: nothing to withdraw where the service was never announced) *)
 Definition exec_gb (d : dstate) (c : cmd) : list bytes :=
   match c with
-  | QUnregister n _ => if mem n (d_services d) then [n] else []
+  | QUnregister n _ => if mem n (d_services d) && mem n (d_announced d) then [n] else []
   | _ => []
   end.
 
@@ -264,8 +285,9 @@ Definition cmd_chan (c : cmd) : option N :=
 (* cleanup(): SearchStopped on every browse and hostname channel ... *)
 Definition cleanup_events (d : dstate) : list out :=
   map (fun e => (snd e, EStopped)) (d_queriers d) ++ map (fun e => (snd e, EStopped)) (d_resolvers d).
-(* ... a goodbye for every registered service *)
-Definition cleanup_goodbyes (d : dstate) : list bytes := d_services d.
+(* ... a goodbye for every registered service that was announced *)
+Definition cleanup_goodbyes (d : dstate) : list bytes :=
+  filter (fun n => mem n (d_announced d)) (d_services d).
 (* the daemon thread ends: every sender the daemon held is dropped *)
 Definition held_channels (d : dstate) : list N :=
   map snd (d_queriers d) ++ map snd (d_resolvers d) ++ d_monitors d.
@@ -345,7 +367,8 @@ Definition iterate (d : dstate) (found : list (bytes * N)) (q : list cmd) : iter
 
 Record stepin : Type := mkIn {
   in_found : list (bytes * N);     (* (type, number of new instances announced) before the iteration *)
-  in_calls : list call }.
+  in_calls : list call;
+  in_announced : list bytes }.     (* own services announced during the iteration (see `mark`) *)
 
 Record sys : Type := mkSys {
   s_chan : chan; s_d : dstate; s_next : N (* next channel id *); s_stuck : bool }.
@@ -364,7 +387,7 @@ Definition step (s : sys) (i : stepin) : sys * sobs :=
   let nxt := s_next s + N.of_nat (length (in_calls i)) in
   if q_gone q1 || s_stuck s then (mkSys q1 (s_d s) nxt (s_stuck s), mkObs rs o0 [] false false)
   else
-    let r := iterate (s_d s) (in_found i) (q_items q1) in
+    let r := iterate (mark (s_d s) (in_announced i)) (in_found i) (q_items q1) in
     (mkSys (mkChan (it_rest r) (it_exited r)) (it_d r) nxt (it_stuck r),
      (* the clients read their channels when the iteration is over; if it never is, they
         never read what a blocked iteration had already sent *)
@@ -526,8 +549,9 @@ Fixpoint chk_from (d : dstate) (base : N) (seen : bool) (h : list stepin) (tr : 
         else
           let q := accepted cs base (so_results o) in
           chk_resolves q (so_exited o) (so_events o)
-          && chk_shutdown d (in_found i) q o
-          && chk_from (fst (exec_seq (fst (arrive d (in_found i))) (before_exit q))) nxt (shutdown_seen o) ht tr1)
+          && chk_shutdown (mark d (in_announced i)) (in_found i) q o
+          && chk_from (fst (exec_seq (fst (arrive (mark d (in_announced i)) (in_found i))) (before_exit q)))
+                      nxt (shutdown_seen o) ht tr1)
   | _, _ => false
   end.
 
